@@ -23,9 +23,21 @@ func HarnessCrash() {
 	}
 	acked := zzViewDump(db, "crash/acked0")
 	var inflight []zzKV
+	var inflightTxid uint64
 	inFlight := false // a commit was started and not yet acknowledged
 	closing := false
+	flip := zz.Param("flip", 0) == 1
 	crashed := zz.RunUntilCrash(func() {
+		if flip && !withReader {
+			// the file was written under one freelist-sync setting and is reopened under the other one
+			// inside the crash region: reopening a no-sync file in sync mode commits a rebuilt free list
+			zz.Assert(db.Close() == nil, "crash/close-before-flip")
+			c.noFLSync = !c.noFLSync
+			var err error
+			db, err = Open(path, 0600, c.options())
+			zz.Assert(err == nil, "crash/reopen-flipped")
+			zz.Reach("reopened-flipped")
+		}
 		for t := 0; t < ntx; t++ {
 			tx, err := db.Begin(true)
 			zz.Assert(err == nil, "crash/begin")
@@ -35,6 +47,7 @@ func HarnessCrash() {
 				continue
 			}
 			inflight = zzDump(tx)
+			inflightTxid = uint64(tx.ID())
 			inFlight = true
 			err = tx.Commit()
 			zz.Assert(err == nil, "crash/commit")
@@ -54,6 +67,19 @@ func HarnessCrash() {
 		return
 	}
 	// ---- recovery
+	// which meta did the crash leave? (independent decoder on the crash image; reading the two meta
+	// sectors resolves only their survival, exactly what Open reads first)
+	fv := zz.FileView(path)
+	cm0, cm1 := zzReadMeta(fv, 0), zzReadMeta(fv, c.pageSize)
+	zz.Assert(cm0.ok || cm1.ok, "crash/a-valid-meta-survives")
+	newestTxid := uint64(0)
+	if cm0.ok {
+		newestTxid = cm0.txid
+	}
+	if cm1.ok && cm1.txid > newestTxid {
+		newestTxid = cm1.txid
+	}
+	inflightMetaPersisted := inFlight && newestTxid == inflightTxid
 	db2, err := Open(path, 0600, c.options())
 	zz.Assert(err == nil, "crash/recovery-open-succeeds")
 	if err != nil {
@@ -64,6 +90,13 @@ func HarnessCrash() {
 	if inFlight {
 		zz.Reach("crash-with-commit-in-flight")
 		zz.Assert(zz.Or(isAcked, zzSameKVs(got, inflight)), "crash/recovered-is-acknowledged-or-inflight-state")
+		// ... the in-flight state iff its meta page was completely persisted
+		if inflightMetaPersisted {
+			zz.Reach("inflight-meta-persisted")
+			zz.Assert(zzSameKVs(got, inflight), "crash/inflight-meta-persisted-so-inflight-state")
+		} else {
+			zz.Assert(isAcked, "crash/inflight-meta-not-persisted-so-acknowledged-state")
+		}
 	} else {
 		zz.Assert(isAcked, "crash/recovered-is-last-acknowledged-state")
 	}
